@@ -297,6 +297,12 @@ def table_rules(repo, rep):
 
 def run(repo, rep):
     alg.reset()
+    # the two local-frame conversions take their position in any angle notation: both must convert it (siblings agree)
+    from .common import angle_param_rule
+    for q in ('enu2xyz', 'xyz2enu'):
+        f_ = repo.func('geodepy.geodesy', q)
+        for p_ in f_.params[:2]:
+            angle_param_rule(rep, f_, p_.name)
     common.typecheck_rules(repo, rep)
     rep.trust('sv/alg.py exact normal forms (circular functions expanded into exponentials: every trigonometric identity holds by construction)')
     rep.trust('Student-t quantiles: regularised incomplete beta function by continued fraction + bisection in sv/tables.py (|error| < 1e-9)')
